@@ -18,7 +18,7 @@ RULE = ("random un-canted shots x look angle {0, +-0.5, +-5, +-30, +-45, +-59 de
         "distance exceeds 300 yd or the stored zero is non-zero")
 MUST_OBSERVE = ["zeroings", "zeroings_judged", "fire_backs", "look_level", "look_small", "look_steep", "with_wind",
                 "stored_zero_nonzero", "api_set_weapon_zero", "api_barrel_elevation", "raises_adjudicated", "unreachable_precondition", "raises_with_precondition_false",
-                "failures_zero_kept_checked", "zeroed_before_under_other_conditions", "powder_sensitive_zeroings"]
+                "failures_zero_kept_checked", "zeroed_before_under_other_conditions", "powder_sensitive_zeroings", "bare_number_zero_distances"]
 ASSUMPTIONS = ["'one integration step of travel' = the largest overshoot the zero finder's end condition permits: (min step + longest "
                "down-range advance of one step) / cos(trajectory angle), taken from the step trace of the fire-back; bound = accuracy + "
                "1.25 x (overshoot x |sin(relative angle)| + curvature remainder)",
@@ -157,12 +157,21 @@ def check_case(ctx, case):
     err = None
     with monitors.quiet():
         try:
+            target = Distance.Foot(d_ft)
+            if case.get("bare_in"):
+                # the zero distance as a bare number in the session's preferred distance unit (switched after the set-up was built)
+                pb.PreferredUnits.distance = pb.Unit[case["bare_in"]]
+                target = Distance.Foot(d_ft) >> pb.Unit[case["bare_in"]]
+                ctx.count("bare_number_zero_distances")
             if api == "set_weapon_zero":
-                ret = calc.set_weapon_zero(shot, Distance.Foot(d_ft))
+                ret = calc.set_weapon_zero(shot, target)
             else:
-                ret = calc.barrel_elevation_for_target(shot, Distance.Foot(d_ft))
+                ret = calc.barrel_elevation_for_target(shot, target)
         except (pb.ZeroFindingError, pb.RangeError) as e:
             err = e
+        finally:
+            if case.get("bare_in"):
+                pb.PreferredUnits.defaults()
     nontrivial = bool(look_deg) or bool(spec.get("winds")) or d_ft > 900 or bool(spec.get("zero_deg"))
     precondition_ok = True
     try:
@@ -260,6 +269,8 @@ def gen_case(rng):
         # temperature-sensitive powder stated at another temperature than the air's: zeroing and firing must launch alike
         s["powder"] = {"temp_c": round(rng.uniform(-25, 45), 1), "modifier": round(rng.choice([-1, 1]) * rng.uniform(0.005, 0.03), 4), "use": True}
     case = {"shot": s, "distance_ft": d_yd * 3.0, "api": rng.choice(["set_weapon_zero", "barrel_elevation"])}
+    if rng.random() < 0.12:
+        case["bare_in"] = rng.choice(["Meter", "Foot", "Yard", "Inch", "Kilometer", "Centimeter"])
     if rng.random() < 0.15:
         case["config"] = rng.choice([{"max_calc_step_size_feet": 1.0}, {"cZeroFindingAccuracy": 1e-4}, {"max_calc_step_size_feet": 0.25}])
     if rng.random() < 0.25 and d_yd <= 600:
